@@ -11,7 +11,9 @@ const OrdinalsPrefix = "ord"
 
 // Inscribe adds an output to the transaction with an inscription.
 func (tx *Tx) Inscribe(ia *bscript.InscriptionArgs) error {
-	s := *ia.LockingScriptPrefix // deep copy
+	// copy the prefix: appending to the caller's slice could write into its spare capacity
+	s := make(bscript.Script, len(*ia.LockingScriptPrefix))
+	copy(s, *ia.LockingScriptPrefix)
 
 	// add Inscription data
 	// (Example: 	OP_FALSE
